@@ -266,10 +266,11 @@ Qed.
 (* reading the common header of a well-formed payload *)
 Lemma xkey_header_app version d fp ix cc rest :
   (version < 2 ^ 32)%N -> (d < 256)%N -> length fp = 4%nat -> (ix < 2 ^ 32)%N -> length cc = 32%nat ->
+  (d = 0%N -> ix = 0%N /\ fp = zeros 4) ->
   xkey_header version (ser_u32 version ++ [n2b d] ++ fp ++ ser_u32 ix ++ cc ++ rest)
   = Ok (d, fp, ix, cc, rest).
 Proof.
-  intros Hv Hd Hfp Hix Hcc. unfold xkey_header.
+  intros Hv Hd Hfp Hix Hcc Hm. unfold xkey_header.
   rewrite read_exact_app by apply ser_u32_length. cbn [of_option bind].
   unfold ser_u32 at 1. rewrite be_val_be_bytes.
   change (256 ^ N.of_nat 4)%N with (2 ^ 32)%N. rewrite N.mod_small by exact Hv.
@@ -277,10 +278,15 @@ Proof.
   rewrite (read_exact_app 1 [n2b d]) by reflexivity. cbn [of_option bind].
   rewrite read_exact_app by exact Hfp. cbn [of_option bind].
   rewrite read_exact_app by apply ser_u32_length. cbn [of_option bind].
-  rewrite read_exact_app by exact Hcc. cbn [of_option bind].
   rewrite be_val_single, b2n_n2b by exact Hd.
-  unfold ser_u32. rewrite be_val_be_bytes.
-  change (256 ^ N.of_nat 4)%N with (2 ^ 32)%N. rewrite N.mod_small by exact Hix. reflexivity.
+  assert (Eix : be_val (ser_u32 ix) = ix).
+  { unfold ser_u32. rewrite be_val_be_bytes. change (256 ^ N.of_nat 4)%N with (2 ^ 32)%N. apply N.mod_small. exact Hix. }
+  rewrite !Eix.
+  assert (Hg : (d =? 0)%N && (negb (ix =? 0)%N || negb (bytes_eqb fp (zeros 4))) = false).
+  { destruct (N.eqb_spec d 0) as [E0|_]; [|reflexivity]. destruct (Hm E0) as [-> ->].
+    rewrite bytes_eqb_refl. reflexivity. }
+  rewrite Hg.
+  rewrite read_exact_app by exact Hcc. cbn [of_option bind]. reflexivity.
 Qed.
 
 Lemma checksum_ok_intro p :
@@ -295,11 +301,13 @@ Qed.
 
 Definition xprv_ok (E : ec_ops) (x : xprv) : Prop :=
   in_scalar (xs_key x) = true /\ xs_comp x = true /\ xs_pub x = pub_of_priv E (xs_key x) true /\
-  length (xs_cc x) = 32%nat /\ length (xs_fp x) = 4%nat /\ (xs_depth x < 256)%N /\ (xs_index x < 2 ^ 32)%N.
+  length (xs_cc x) = 32%nat /\ length (xs_fp x) = 4%nat /\ (xs_depth x < 256)%N /\ (xs_index x < 2 ^ 32)%N /\
+  (xs_depth x = 0%N -> xs_index x = 0%N /\ xs_fp x = zeros 4).
 
 Definition xpub_ok (E : ec_ops) (x : xpub) : Prop :=
   length (xp_pub x) = 33%nat /\ ec_dec E (xp_pub x) <> None /\
-  length (xp_cc x) = 32%nat /\ length (xp_fp x) = 4%nat /\ (xp_depth x < 256)%N /\ (xp_index x < 2 ^ 32)%N.
+  length (xp_cc x) = 32%nat /\ length (xp_fp x) = 4%nat /\ (xp_depth x < 256)%N /\ (xp_index x < 2 ^ 32)%N /\
+  (xp_depth x = 0%N -> xp_index x = 0%N /\ xp_fp x = zeros 4).
 
 Lemma in_scalar_range k : in_scalar k = true -> 1 <= k < secp_n.
 Proof.
@@ -333,7 +341,7 @@ Lemma version_lt_pub : (XPUB_VERSION_BYTE < 2 ^ 32)%N. Proof. reflexivity. Qed.
 
 Theorem xprv_roundtrip E x : xprv_ok E x -> xprv_from_string E (xprv_to_string x) = Ok x.
 Proof.
-  intros (Hk & Hcomp & Hpub & Hcc & Hfp & Hd & Hix).
+  intros (Hk & Hcomp & Hpub & Hcc & Hfp & Hd & Hix & Hm).
   unfold xprv_from_string, xprv_to_string. rewrite b58_roundtrip. cbn [of_option bind].
   pose proof (xprv_payload_length x Hcc Hfp) as Hlen.
   pose proof (checksum_ok_intro (xprv_payload x) Hlen) as Hck.
@@ -344,7 +352,7 @@ Proof.
                          ++ ([x00] ++ be32 (xs_key x) ++ ck)).
   { unfold full, xprv_payload. rewrite <- !app_assoc. reflexivity. }
   rewrite Efull at 1.
-  rewrite (xkey_header_app _ _ _ _ _ _ version_lt_prv Hd Hfp Hix Hcc). cbn [bind].
+  rewrite (xkey_header_app _ _ _ _ _ _ version_lt_prv Hd Hfp Hix Hcc Hm). cbn [bind].
   rewrite (read_exact_app 1 [x00]) by reflexivity. cbn [of_option bind].
   change (be_val [x00] =? 0)%N with true. cbn [negb].
   rewrite read_exact_app by apply be32_length. cbn [of_option bind].
@@ -355,7 +363,7 @@ Qed.
 
 Theorem xpub_roundtrip E x : xpub_ok E x -> xpub_from_string E (xpub_to_string x) = Ok x.
 Proof.
-  intros (Hp & Hdec & Hcc & Hfp & Hd & Hix).
+  intros (Hp & Hdec & Hcc & Hfp & Hd & Hix & Hm).
   unfold xpub_from_string, xpub_to_string. rewrite b58_roundtrip. cbn [of_option bind].
   pose proof (xpub_payload_length x Hcc Hfp Hp) as Hlen.
   pose proof (checksum_ok_intro (xpub_payload x) Hlen) as Hck.
@@ -366,7 +374,7 @@ Proof.
                          ++ (xp_pub x ++ ck)).
   { unfold full, xpub_payload. rewrite <- !app_assoc. reflexivity. }
   rewrite Efull at 1.
-  rewrite (xkey_header_app _ _ _ _ _ _ version_lt_pub Hd Hfp Hix Hcc). cbn [bind].
+  rewrite (xkey_header_app _ _ _ _ _ _ version_lt_pub Hd Hfp Hix Hcc Hm). cbn [bind].
   rewrite read_exact_app by exact Hp. cbn [of_option bind].
   destruct (ec_dec E (xp_pub x)) as [K|]; [|contradiction]. cbn [of_option bind].
   rewrite <- (app_nil_r ck) at 1. rewrite read_exact_app by exact Hckl. cbn [of_option bind].
@@ -389,7 +397,8 @@ Lemma xkey_header_inv version bs d fp ix cc rest :
   xkey_header version bs = Ok (d, fp, ix, cc, rest) ->
   exists v db ixb, bs = v ++ db ++ fp ++ ixb ++ cc ++ rest /\
     length v = 4%nat /\ be_val v = version /\ length db = 1%nat /\ be_val db = d /\
-    length fp = 4%nat /\ length ixb = 4%nat /\ be_val ixb = ix /\ length cc = 32%nat.
+    length fp = 4%nat /\ length ixb = 4%nat /\ be_val ixb = ix /\ length cc = 32%nat /\
+    (d = 0%N -> ix = 0%N /\ fp = zeros 4).
 Proof.
   unfold xkey_header. intros H.
   apply bind_ok_inv in H. destruct H as ([v c0] & H0 & H). apply of_option_ok_inv, read_exact_some in H0.
@@ -397,10 +406,15 @@ Proof.
   apply bind_ok_inv in H. destruct H as ([db c1] & H1 & H). apply of_option_ok_inv, read_exact_some in H1.
   apply bind_ok_inv in H. destruct H as ([fp' c2] & H2 & H). apply of_option_ok_inv, read_exact_some in H2.
   apply bind_ok_inv in H. destruct H as ([ixb c3] & H3 & H). apply of_option_ok_inv, read_exact_some in H3.
+  destruct ((be_val db =? 0)%N && (negb (be_val ixb =? 0)%N || negb (bytes_eqb fp' (zeros 4)))) eqn:Eg; [discriminate|].
   apply bind_ok_inv in H. destruct H as ([cc' c4] & H4 & H). apply of_option_ok_inv, read_exact_some in H4.
   inversion H; subst d fp' ix cc' c4; clear H.
   destruct H0 as [-> L0], H1 as [-> L1], H2 as [-> L2], H3 as [-> L3], H4 as [-> L4].
-  exists v, db, ixb. repeat split; assumption || reflexivity.
+  exists v, db, ixb. repeat split; try (assumption || reflexivity).
+  - apply N.eqb_eq in H. rewrite H in Eg. cbn [andb] in Eg. apply orb_false_iff in Eg. destruct Eg as [E1 _].
+    apply negb_false_iff, N.eqb_eq in E1. exact E1.
+  - apply N.eqb_eq in H. rewrite H in Eg. cbn [andb] in Eg. apply orb_false_iff in Eg. destruct Eg as [_ E2].
+    apply negb_false_iff, bytes_eqb_eq in E2. exact E2.
 Qed.
 
 Lemma checksum_ok_inv bs ck total :
@@ -420,7 +434,7 @@ Proof.
   unfold xprv_from_string. intros H.
   apply bind_ok_inv in H. destruct H as (bs & Hb & H). apply of_option_ok_inv in Hb.
   apply bind_ok_inv in H. destruct H as ([[[[d fp] ix] cc] c4] & Hh & H).
-  apply xkey_header_inv in Hh. destruct Hh as (v & db & ixb & Ebs & Lv & Vv & Ldb & Vd & Lfp & Lix & Vix & Lcc).
+  apply xkey_header_inv in Hh. destruct Hh as (v & db & ixb & Ebs & Lv & Vv & Ldb & Vd & Lfp & Lix & Vix & Lcc & Hm).
   apply bind_ok_inv in H. destruct H as ([pad c5] & Hp & H). apply of_option_ok_inv, read_exact_some in Hp.
   destruct Hp as [-> Lpad].
   destruct (be_val pad =? 0)%N eqn:Epad; cbn [negb] in H; [|discriminate]. apply N.eqb_eq in Epad.
@@ -476,7 +490,8 @@ Proof.
     rewrite Nat.sub_diag, firstn_O, app_nil_r. symmetry. apply firstn_all2.
     rewrite !app_length, Lv, Ldb, Lfp, Lix, Lcc, Lpad, Lkb. lia.
   - unfold xprv_ok. cbn [xs_key xs_comp xs_pub xs_cc xs_fp xs_depth xs_index].
-    repeat split; try assumption; try reflexivity.
+    split; [exact Esc|]. split; [reflexivity|]. split; [reflexivity|]. split; [exact Lcc|]. split; [exact Lfp|].
+    split; [|split; [|exact Hm]].
     + destruct db as [|b [|? ?]]; try discriminate. rewrite be_val_single in Vd. subst d. apply b2n_lt.
     + subst ix. pose proof (le_val_bound (rev ixb)) as B. unfold be_val. rewrite rev_length, Lix in B. exact B.
 Qed.
@@ -486,7 +501,7 @@ Proof.
   unfold xpub_from_string. intros H.
   apply bind_ok_inv in H. destruct H as (bs & Hb & H). apply of_option_ok_inv in Hb.
   apply bind_ok_inv in H. destruct H as ([[[[d fp] ix] cc] c4] & Hh & H).
-  apply xkey_header_inv in Hh. destruct Hh as (v & db & ixb & Ebs & Lv & Vv & Ldb & Vd & Lfp & Lix & Vix & Lcc).
+  apply xkey_header_inv in Hh. destruct Hh as (v & db & ixb & Ebs & Lv & Vv & Ldb & Vd & Lfp & Lix & Vix & Lcc & Hm).
   apply bind_ok_inv in H. destruct H as ([kb c5] & Hk & H). apply of_option_ok_inv, read_exact_some in Hk.
   destruct Hk as [-> Lkb].
   apply bind_ok_inv in H. destruct H as (K & Hdec & H). apply of_option_ok_inv in Hdec.
@@ -520,8 +535,8 @@ Proof.
     rewrite Esplit, firstn_app, L78, Nat.sub_diag, firstn_O, app_nil_r. symmetry.
     apply firstn_all2. rewrite L78. lia.
   - unfold xpub_ok. cbn [xp_pub xp_cc xp_fp xp_depth xp_index].
-    repeat split; try assumption; try reflexivity.
-    + rewrite Hdec. discriminate.
+    split; [exact Lkb|]. split; [rewrite Hdec; discriminate|]. split; [exact Lcc|]. split; [exact Lfp|].
+    split; [|split; [|exact Hm]].
     + destruct db as [|b [|? ?]]; try discriminate. rewrite be_val_single in Vd. subst d. apply b2n_lt.
     + subst ix. pose proof (le_val_bound (rev ixb)) as B. unfold be_val. rewrite rev_length, Lix in B. exact B.
 Qed.
